@@ -63,3 +63,8 @@ package bytesconv
 
 //@ trusted-pure sync.Once
 //@ trusted-pure atomic.Value
+
+//@ trusted-pure io.Closer
+//@ trusted-pure multipart.Form
+//@ trusted-pure bytebufferpool.Pool
+//@ trusted-pure sync.Pool
